@@ -204,6 +204,7 @@ class RefSaslClient(DumbPeer):
         self.sent_lines = []
         self.cookie_used = None
         self.cancel_with = b'CANCEL'
+        self.first_match = False     # which line wins when a keyring lists an id twice
 
     def w(self, line):
         self.sent_lines.append(line)
@@ -246,6 +247,8 @@ class RefSaslClient(DumbPeer):
                 self.w(b'DATA ' + hexs(self.uid))
             elif self.kind == 'COOKIE-cancel':
                 return self.w(self.cancel_with)
+            elif self.kind == 'COOKIE-silent':
+                return None          # got the challenge, never answers
             elif self.kind.startswith('COOKIE'):
                 try:
                     ctx, cid, chal = binascii.unhexlify(arg.strip()).split()
@@ -253,7 +256,7 @@ class RefSaslClient(DumbPeer):
                     with open(os.path.join(self.keyring, ctx.decode('ascii')), 'rb') as f:
                         for ln in f:
                             a, b, c = ln.split()
-                            if a == cid:
+                            if a == cid and not (self.first_match and cookie is not None):
                                 cookie = c
                     if cookie is None:
                         raise KeyError(cid)
